@@ -697,7 +697,7 @@ def _f_parameter_symmetry(chk):
     chk.floor("families with a default continuation parameter examined", n, 3)
 
 
-def _f_members(chk):
+def _f_members(chk, scheme=True):
     mod, cls = ri.find_def(IF, "_OrbitContinuationInterface")
     made = []
 
@@ -776,9 +776,10 @@ def _f_members(chk):
     # configuration - none at all for a GenericOrbit (every member "fails", the exception is swallowed and counted as a rejected correction), the default
     # controls for a halo whose seed was corrected with other controls (members snap back onto the seed)
     cfgs = [m.attrs.get("correction_config", m.attrs.get("_correction_config")) for m in made]
-    chk.check(bool(made) and all(c == sp.Symbol("SEED_CORRECTION_CONFIG") for c in cfgs), "C13.f", f"{IF}::_OrbitContinuationInterface._instantiate[correction scheme]",
-              f"members are instantiated with correction configuration {cfgs} (None = the class default), not the seed's: they are not corrected under the constraints the "
-              f"seed satisfies", sample="member.correction_config = seed.correction_config")
+    if scheme:
+        chk.check(bool(made) and all(c == sp.Symbol("SEED_CORRECTION_CONFIG") for c in cfgs), "C13.f", f"{IF}::_OrbitContinuationInterface._instantiate[correction scheme]",
+                  f"members are instantiated with correction configuration {cfgs} (None = the class default), not the seed's: they are not corrected under the constraints the "
+                  f"seed satisfies", sample="member.correction_config = seed.correction_config")
     fam = cap.get("family")
     chk.check(fam is not None and len(fam) == 3 and fam[0] is seed and cap.get("accepted_count") == 3 and cap.get("rejected_count") == 1
               and cap.get("iterations") == 3, "C13.b", f"{IF}::_OrbitContinuationInterface.to_domain[counts]",
